@@ -52,6 +52,12 @@ Cases(d) ==
     \cup { [srcs |-> <<a, b>>, bases |-> <<>>, mode |-> "plain", norm |-> FALSE] : a \in Profs(1), b \in AnyProf }
     \cup { [srcs |-> <<a>>, bases |-> <<b>>, mode |-> m, norm |-> FALSE] : a \in Profs(1) \cup Profs(3), b \in BaseProf, m \in {"base", "diff_base"} }
     \cup { [srcs |-> <<a>>, bases |-> <<a>>, mode |-> m, norm |-> n] : a \in AnyProf, m \in {"base", "diff_base"}, n \in BOOLEAN }   \* p - p
+    \* -normalize with exact ratios: the source is scaled, column by column, by (base total / source total) - 2 and 2;
+    \* 3 and 1; 2 and, for a column whose source total is 0, nothing
+    \cup { [srcs |-> <<a>>, bases |-> <<b>>, mode |-> m, norm |-> TRUE] : m \in {"base", "diff_base"},
+             a \in { P(1, <<S2(1, <<1, 3>>), S2(2, <<1, 1>>)>>) },
+             b \in { P(1, <<S2(3, <<4, 8>>)>>), P(1, <<S2(1, <<6, 4>>)>>), P(1, <<S2(2, <<2, 2>>), S2(3, <<2, 6>>)>>) } }
+    \cup { [srcs |-> <<P(1, <<S2(1, <<5, 0>>)>>)>>, bases |-> <<P(1, <<S2(2, <<10, 7>>)>>)>>, mode |-> "base", norm |-> TRUE] }
     \* three units in the order coarse, finest, intermediate
     \cup { [srcs |-> <<P(2, <<S2(1, a)>>), P(6, <<S2(k, b)>>), P(1, <<S2(1, <<1, 3>>)>>)>>, bases |-> <<>>, mode |-> "plain", norm |-> FALSE] :
              a \in {<<1, 3>>, <<2, 2>>}, b \in {<<5, 0>>, <<1, 3>>, <<7, 1>>}, k \in {1, 2} }
@@ -73,16 +79,21 @@ FinestFactor(c, t) == Min({Factor(AllProfs(c)[j].st[ColOf(AllProfs(c)[j], t)].u)
 FinestUnit(c, t) == LET ps == AllProfs(c) IN
                     ps[CHOOSE j \in DOMAIN ps : Factor(ps[j].st[ColOf(ps[j], t)].u) = FinestFactor(c, t)].st[ColOf(ps[CHOOSE j \in DOMAIN ps : Factor(ps[j].st[ColOf(ps[j], t)].u) = FinestFactor(c, t)], t)].u
 \* a profile's samples expressed in the common columns and finest units, times sign
-Norm1(c, p, sign, lab) ==
+\* -normalize: the ratio (base total / source total) of a column, taken on the values as fetched; 0 when the source
+\* has nothing in that column (the cases keep the ratios integral: float rounding is C15's subject)
+ColTotal(ps, t) == FoldLeft(LAMBDA acc, p : acc + FoldLeft(LAMBDA a2, smp : a2 + smp.vals[ColOf(p, t)], 0, p.samples), 0, ps)
+NormRatio(c, t) == IF ~c.norm \/ Len(c.bases) = 0 THEN 1
+                   ELSE IF ColTotal(c.srcs, t) = 0 THEN 0 ELSE ColTotal(c.bases, t) \div ColTotal(c.srcs, t)
+Norm1(c, p, sign, lab, isSrc) ==
   [i \in DOMAIN p.samples |->
      [p.samples[i] EXCEPT
         !.vals = [k \in DOMAIN Common(c) |->
-                    sign * p.samples[i].vals[ColOf(p, Common(c)[k])]
+                    sign * (IF isSrc THEN NormRatio(c, Common(c)[k]) ELSE 1) * p.samples[i].vals[ColOf(p, Common(c)[k])]
                          * (Factor(p.st[ColOf(p, Common(c)[k])].u) \div FinestFactor(c, Common(c)[k]))],
         !.lab = lab]]
 BaseLab(c) == IF c.mode = "diff_base" THEN <<SLab("pprof::base", <<"true">>)>> ELSE <<>>
-AllD(c) == FlattenSeq([i \in DOMAIN c.srcs |-> Norm1(c, c.srcs[i], 1, <<>>)])
-           \o FlattenSeq([j \in DOMAIN c.bases |-> Norm1(c, c.bases[j], 0 - 1, BaseLab(c))])
+AllD(c) == FlattenSeq([i \in DOMAIN c.srcs |-> Norm1(c, c.srcs[i], 1, <<>>, TRUE)])
+           \o FlattenSeq([j \in DOMAIN c.bases |-> Norm1(c, c.bases[j], 0 - 1, BaseLab(c), FALSE)])
 \* merge by stack identity (values of identical stacks add up; all-zero stacks disappear)
 MergeSeq(ss, n) ==
   LET step(acc, s) ==
@@ -102,10 +113,10 @@ TotalOf(c, si) ==
       a == FoldFunction(LAMBDA s, acc : acc + AbsI(s.vals[si]), 0, m)
   IN IF b > 0 THEN b ELSE a
 \* entry-wise sum of the individual reports
-RowsOfProfile(c, p, si) == NodeTableD(Norm1(c, p, 1, <<>>), RCfg(si))
+RowsOfProfile(c, p, si, isSrc) == NodeTableD(Norm1(c, p, 1, <<>>, isSrc), RCfg(si))
 SumRows(c, si, name, f(_)) ==
-    FoldFunction(LAMBDA p, acc : acc + FoldSet(LAMBDA r, a2 : IF r.e.name = name THEN a2 + f(r) ELSE a2, 0, RowsOfProfile(c, p, si)), 0, c.srcs)
-  - FoldFunction(LAMBDA p, acc : acc + FoldSet(LAMBDA r, a2 : IF r.e.name = name THEN a2 + f(r) ELSE a2, 0, RowsOfProfile(c, p, si)), 0, c.bases)
+    FoldFunction(LAMBDA p, acc : acc + FoldSet(LAMBDA r, a2 : IF r.e.name = name THEN a2 + f(r) ELSE a2, 0, RowsOfProfile(c, p, si, TRUE)), 0, c.srcs)
+  - FoldFunction(LAMBDA p, acc : acc + FoldSet(LAMBDA r, a2 : IF r.e.name = name THEN a2 + f(r) ELSE a2, 0, RowsOfProfile(c, p, si, FALSE)), 0, c.bases)
 
 \* ------------------------------------------------------------- operational
 VARIABLES case, pc, work, basework
@@ -120,14 +131,14 @@ KeepAfterScale(p, s, c) ==
              (Factor(p.st[ColOf(p, Common(c)[k])].u) # FinestFactor(c, Common(c)[k])) /\ (s.vals[ColOf(p, Common(c)[k])] # 0)
        \/ \A k \in DOMAIN Common(c) : Factor(p.st[ColOf(p, Common(c)[k])].u) = FinestFactor(c, Common(c)[k])
   ELSE TRUE
-ScaleGroup(c, ps, sign, lab) ==
+ScaleGroup(c, ps, sign, lab, isSrc) ==
   FlattenSeq([i \in DOMAIN ps |->
      LET kept == SelectSeq(ps[i].samples, LAMBDA s : KeepAfterScale(ps[i], s, c))
-     IN Norm1(c, [ps[i] EXCEPT !.samples = kept], sign, lab)])
+     IN Norm1(c, [ps[i] EXCEPT !.samples = kept], sign, lab, isSrc)])
 Align ==
   /\ pc = "align"
-  /\ work' = MergeSeq(ScaleGroup(case, case.srcs, 1, <<>>), NC(case))
-  /\ basework' = MergeSeq(ScaleGroup(case, case.bases, 1, <<>>), NC(case))
+  /\ work' = MergeSeq(ScaleGroup(case, case.srcs, 1, <<>>, TRUE), NC(case))
+  /\ basework' = MergeSeq(ScaleGroup(case, case.bases, 1, <<>>, FALSE), NC(case))
   /\ pc' = "subtract"
   /\ UNCHANGED case
 Subtract ==
